@@ -255,6 +255,24 @@ Definition v2_extra (f : bfile) : Prop :=
 
 Definition v2_Inv (f : bfile) : Prop := GInv bfile v2_rec blen B2 two24 f /\ v2_extra f.
 
+(* --- a store as the list of its writes, in program order (BundleV2._store_tile: _append_tile writes the size and the
+   data at the end of the file, _update_tile_offset the index entry, _update_metadata the two header fields).
+   A store that raises part-way (write error, kill) leaves a prefix of this list behind, the appended bytes possibly
+   cut short.  v2_WInv is what survives that: v2_Inv without the two header fields. *)
+Definition apply_writes (f : bfile) (ws : list (Z * list Z)) : bfile :=
+  fold_left (fun g w => bwrite g (fst w) (snd w)) ws f.
+
+Definition v2_store_writes (f : bfile) (s : slot) (data : list Z) : list (Z * list Z) :=
+  let size := zlen data in
+  let e := blen f in
+  [(e, le 4 size); (e + 4, data); (v2_idx s, le 8 (v2_entry_encode (e + 4) size))]
+  ++ (if brd f 8 4 <? size then [(8, le 4 size)] else [])
+  ++ [(24, le 8 (e + 4 + size))].
+
+Definition v2_WInv (f : bfile) : Prop :=
+  GInv bfile v2_rec blen B2 two24 f /\ bytes_ok f /\
+  (forall s a d, slot_ok s -> v2_rec f s = Some (a, d) -> brd f a 4 = zlen d).
+
 (* ------------------------------------------------------------------------------------------------ *)
 (* Format v1: .bundlx index (16 + 16384 x 5 + 16 bytes) and .bundle data (60-byte header, 16384 x 4    *)
 (* zero bytes, records size:4 ++ data)                                                                *)
